@@ -675,6 +675,11 @@ class _Coupling(Fam):
                 cfg["minw"] = float(rng.choice([1e-3, 0.02, 0.05]))
                 cfg["minh"] = float(rng.choice([1e-3, 0.01, 0.04]))
         self.extra(cfg, rng)
+        # conditioner options of the library's residual nets (eval mode: running statistics / no dropout)
+        if cfg["net"] == "resnet" and rng.random() < 0.2:
+            cfg["net_bn"] = True
+        if cfg["net"] == "resnet" and rng.random() < 0.15:
+            cfg["dropout"] = 0.3
         return cfg
 
     def extra(self, cfg, rng):
@@ -852,6 +857,10 @@ class _AR(Fam):
             cfg["B"] = float(rng.choice([1.0, 3.0]))
             if cfg["tails"]:
                 cfg["bins"] = max(cfg["bins"], self.minbins_tails)
+        if rng.random() < 0.2:
+            cfg["net_bn"] = True
+        if rng.random() < 0.15:
+            cfg["dropout"] = 0.3
         return cfg
 
     def must(self):
